@@ -366,6 +366,7 @@ class SimLoop(asyncio.BaseEventLoop):
         self._timers = []  # (due, seq, handle, already_delayed)
         self._tseq = itertools.count()
         self._tcancelled = 0
+        self._respin = {}
         self._sim_transports = []
         self._timer_stream = chooser.stream("timer")
         self._sched_stream = chooser.stream("sched")
@@ -424,7 +425,28 @@ class SimLoop(asyncio.BaseEventLoop):
             raise TypeError("when cannot be None")
         self._check_closed()
         timer = events.TimerHandle(when, callback, args, self, context)
-        due = (when if when > self._vtime else self._vtime) + _MIN_LATENESS
+        lateness = _MIN_LATENESS
+        if when <= self._vtime:
+            # The caller asks for a deadline that has passed already.  aioquic does that over and
+            # over while it owes an ACK it may not send (anti-amplification limit): a real loop
+            # busy-spins through it at its own pace; in virtual time 1 us steps would eat the whole
+            # callback budget.  Timers may always run late, so back off (at most 20 ms) and count it.
+            owner = getattr(callback, "__self__", None)
+            try:
+                k = self._respin.get(owner, 0) + 1
+                self._respin[owner] = k
+            except TypeError:
+                k = 1
+            if k > 8:
+                self.probes["timer_respin_backoff"] += 1
+                lateness = min(_MIN_LATENESS * 2.0 ** min(k - 8, 20), 0.02)
+        elif self._respin:
+            owner = getattr(callback, "__self__", None)
+            try:
+                self._respin.pop(owner, None)
+            except TypeError:
+                pass
+        due = (when if when > self._vtime else self._vtime) + lateness
         heapq.heappush(self._timers, (due, next(self._tseq), timer, False))
         timer._scheduled = True
         return timer
